@@ -22,8 +22,9 @@ static void build_ops(void)
     NOPS = 0;
     for (int i = 0; i < NV; i++) OPS[NOPS++] = (op_t) { 0, i };
     for (int i = 0; i < NPROBE; i++) OPS[NOPS++] = (op_t) { 1, i };
+    OPS[NOPS++] = (op_t) { 2, 0 };             /* done(): the vector gives up everything it holds and stays usable */
 }
-static void op_name(int i, char *b, size_t n) { snprintf(b, n, "%s(%s)", OPS[i].k ? "remove" : "insert", PROBE[OPS[i].x]); }
+static void op_name(int i, char *b, size_t n) { if (OPS[i].k == 2) snprintf(b, n, "done()"); else snprintf(b, n, "%s(%s)", OPS[i].k ? "remove" : "insert", PROBE[OPS[i].x]); }
 static spif_vector_t new_vec(void)
 {
     switch (CLS) {
@@ -88,7 +89,11 @@ static void apply(void *vs, int op)
 {
     st_t *s = vs; op_t *o = &OPS[op]; const char *shape = shape_for(s, o->x), *m;
     mc_set_shape(shape);
-    if (o->k == 0) {
+    if (o->k == 2) {
+        m = "done";
+        if (!SPIF_VECTOR_DONE(s->v)) FAIL(site(m), "model:return", shape, "done returned FALSE");
+        memset(s->cnt, 0, sizeof s->cnt); s->n = 0;
+    } else if (o->k == 0) {
         spif_obj_t x = S_(PROBE[o->x]); m = "insert";
         spif_bool_t r = SPIF_VECTOR_INSERT(s->v, x);
         if (!r) FAIL(site(m), "model:return", shape, "insert returned FALSE");
@@ -148,6 +153,21 @@ static void probe(void *vs)
             if (SPIF_VECTOR_FIND(v, px) || SPIF_VECTOR_FIND(v, pl) || (int) SPIF_VECTOR_COUNT(v) != s->n) FAIL(site("dup"), "model:not-independent", shape, "inserting into the copy changed the original");
             SPIF_OBJ_DEL(px); SPIF_OBJ_DEL(pl); }
           SPIF_VECTOR_DEL(d); } }
+    /* a second copy loses the element that was its greatest when it was made, is walked, and then receives a new greatest one */
+    if (s->n) { spif_vector_t d = (spif_vector_t) SPIF_VECTOR_DUP(v);
+      if (d && d != v) {
+          spif_obj_t *a = SPIF_VECTOR_TO_ARRAY(d); spif_obj_t top = a ? SPIF_OBJ_DUP(a[s->n - 1]) : NULL; if (a) free(a);
+          spif_obj_t r = top ? SPIF_VECTOR_REMOVE(d, top) : NULL;
+          if (!r) FAIL(site("dup"), "model:copy-remove", shape, "the copy did not hand back its greatest element");
+          else SPIF_OBJ_DEL(r);
+          int k = 0; spif_iterator_t it = SPIF_VECTOR_ITERATOR(d); while (it && k <= s->n + 1 && SPIF_ITERATOR_HAS_NEXT(it)) { (void) SPIF_ITERATOR_NEXT(it); k++; } if (it) SPIF_ITERATOR_DEL(it);
+          if (k != s->n - 1 || (int) SPIF_VECTOR_COUNT(d) != s->n - 1) FAIL(site("dup"), "model:copy-count", shape, "after removing its greatest element the copy counts %d and iterates %d of %d", (int) SPIF_VECTOR_COUNT(d), k, s->n - 1);
+          spif_obj_t hi = S_("zz"); SPIF_VECTOR_INSERT(d, hi);
+          a = SPIF_VECTOR_TO_ARRAY(d); if (!a || (int) SPIF_VECTOR_COUNT(d) != s->n || a[s->n - 1] != hi) FAIL(site("dup"), "model:copy-order", shape, "a new greatest element is not the last element of the copy"); if (a) free(a);
+          if ((int) SPIF_VECTOR_COUNT(v) != s->n) FAIL(site("dup"), "model:not-independent", shape, "the original changed");
+          if (top) SPIF_OBJ_DEL(top);
+          SPIF_VECTOR_DEL(d);
+      } }
     check_struct(s, "queries", shape);
 }
 static void canon(void *vs, char *b, size_t n)
